@@ -5,6 +5,8 @@ import (
 
 	"github.com/ipfs/go-cid"
 	"github.com/ipni/go-libipni/announce/message"
+	"github.com/libp2p/go-libp2p/core/crypto"
+	"github.com/libp2p/go-libp2p/core/peer"
 	cbg "github.com/whyrusleeping/cbor-gen"
 
 	"verif/harness/vlib"
@@ -81,6 +83,23 @@ var samplePeers = []string{
 	"12D3KooWBckWLKiYoUX4k3HTrbrSe4DD5SPNTKgP6vKTva1NaRkJ",
 	"QmYyQSo1c1Ym7orWxLYvCrM2EmxFTANf8wXmmE7DWjhx5N",
 	"12D3KooWQ9j3Ur5V9U63Vi6ved72TcA3sv34k74W3wpW5rwNvDc3",
+}
+
+// peer ID strings of every key type: Ed25519 (52 characters, above), secp256k1 (53),
+// ECDSA and RSA (hashed: 46)
+func init() {
+	rd := rngReader{vlib.NewRand(20260101)}
+	for _, kt := range []int{crypto.Secp256k1, crypto.ECDSA, crypto.RSA} {
+		_, pub, err := crypto.GenerateKeyPairWithReader(kt, 2048, rd)
+		if err != nil {
+			panic(err)
+		}
+		id, err := peer.IDFromPublicKey(pub)
+		if err != nil {
+			panic(err)
+		}
+		samplePeers = append(samplePeers, id.String())
+	}
 }
 
 func genOrig(r *vlib.Rand) string {
